@@ -35,7 +35,7 @@ func c14ts(r *rand.Rand) string {
 }
 
 func c14gen(r *rand.Rand) *c14case {
-	c := &c14case{FileName: []string{"app.log", "svc", "a.b.c", "x-1_y", "app.log", "gw-2006.n1", "Jan_02.15"}[r.IntN(7)]}
+	c := &c14case{FileName: []string{"app.log", "svc", "a.b.c", "x-1_y", "app.log", "gw-2006.n1", "Jan_02.15", "app[1].log", "a*b", "q?.log"}[r.IntN(10)]}
 	switch r.IntN(5) {
 	case 0:
 		c.MaxAge = int32(1 + r.IntN(3))
@@ -279,10 +279,41 @@ func c14Worker(w *W) {
 		if only >= 0 && ci != only {
 			continue
 		}
-		dir := filepath.Join(base, fmt.Sprintf("c%d", ci))
+		// legal directory names, some of which would mean something else to a pattern matcher; next to such a directory lives
+		// another program's directory (the name a pattern would also match) holding old files named exactly like our rotated
+		// ones: they are outside the log directory and must never be touched
+		dirName, decoyName := fmt.Sprintf("c%d", ci), ""
+		switch ci % 6 {
+		case 1:
+			dirName, decoyName = fmt.Sprintf("c%d[z]", ci), fmt.Sprintf("c%dz", ci)
+		case 3:
+			dirName, decoyName = fmt.Sprintf("c%d?", ci), fmt.Sprintf("c%dq", ci)
+		case 4:
+			dirName, decoyName = fmt.Sprintf("c%d*", ci), fmt.Sprintf("c%d-more", ci)
+		case 5:
+			dirName, decoyName = fmt.Sprintf("c%d\\z", ci), fmt.Sprintf("c%dz", ci)
+		}
+		dir := filepath.Join(base, dirName)
 		_ = os.RemoveAll(dir)
 		_ = os.MkdirAll(dir, 0755)
-		cs := map[string]any{"index": ci, "case": c}
+		decoy := ""
+		var decoyBefore map[string]bool
+		if decoyName != "" {
+			decoy = filepath.Join(base, decoyName)
+			_ = os.RemoveAll(decoy)
+			_ = os.MkdirAll(decoy, 0755)
+			old := time.Now().Add(-time.Duration(c.MaxAge)*time.Hour - 500*time.Hour)
+			for k := 0; k < 3; k++ {
+				for _, nm := range []string{c.FileName, c.FileName + ".wf"} {
+					p := filepath.Join(decoy, nm+"."+c14ts(r))
+					_ = os.WriteFile(p, []byte("another program's file\n"), 0644)
+					_ = os.Chtimes(p, old, old)
+				}
+			}
+			decoyBefore = c14listing(decoy)
+			w.Count("neighbour_directories_watched", 1)
+		}
+		cs := map[string]any{"index": ci, "case": c, "dir": dirName}
 		w.Journal("C14 case %d %+v", ci, c)
 		t0 := time.Now()
 		if err := c14populate(dir, c, t0); err != nil {
@@ -340,6 +371,22 @@ func c14Worker(w *W) {
 		for _, a := range aps {
 			a.Write([]byte("current\n"))
 		}
+		if ci%4 == 1 {
+			// the directory is unreadable for one scan (moved away for a moment); the scans that follow must work as ever
+			away := dir + ".away"
+			if err := os.Rename(dir, away); err == nil {
+				for _, a := range aps {
+					if pv, st := catch(a.VerifClearExpiredFiles); pv != nil {
+						w.Violate("C14:cleanup-panic", fmt.Sprintf("retention scan of a vanished directory panicked: %v\n%s", pv, trunc(st, 800)), cs)
+					}
+				}
+				if err := os.Rename(away, dir); err != nil {
+					w.Inconclusive("could not restore the log directory: " + err.Error())
+					return
+				}
+				w.Count("scans_of_a_vanished_directory", int64(len(aps)))
+			}
+		}
 		before := c14listing(dir)
 		how := "synchronous scan"
 		if !e2e {
@@ -393,6 +440,15 @@ func c14Worker(w *W) {
 		}
 		after := c14listing(dir)
 		ok := c14judge(w, c, before, after, names, cs, how)
+		if decoy != "" {
+			for name := range decoyBefore {
+				if _, still := c14listing(decoy)[name]; !still {
+					ok = false
+					w.Violate("C14:wrongly-deleted:outside-directory", fmt.Sprintf("[%s] %s in the neighbouring directory %q was deleted; the log directory is %q", how, name, decoyName, dirName), cs)
+					break
+				}
+			}
+		}
 		if ok && !e2e && ci%3 == 0 {
 			// the same appender scans again later: meanwhile some surviving own files were written to (their
 			// modification time is now) and the retention was shortened to one hour. The decision must follow
@@ -456,6 +512,9 @@ func c14Worker(w *W) {
 			}
 		}
 		_ = os.RemoveAll(dir)
+		if decoy != "" {
+			_ = os.RemoveAll(decoy)
+		}
 	}
 }
 
@@ -463,7 +522,7 @@ func init() {
 	register(&Prop{
 		ID: "C14", Level: "exploration", MinDistinct: 20, Worker: c14Worker,
 		Rule: "directory states generated per case: 3-10 own rotated files '<name>.<14 digits>', 2-5 sibling '<name>.wf.<ts>' files, 4-11 foreign prefix-sharing or unrelated files from 17 shapes (name.audit.<ts>, name.bak, name.1.gz, 13/15-digit suffixes, name.<ts>.gz, 'name.', 'name', namex.<ts>, upper-case, letters/sign inside the digits, ...), sub-directories incl. one named exactly like an own file; " +
-			"modification times set to T0-age with ages 0, maxAge∓11 min, ∓1 h, far expired, uniformly young; names in {app.log, svc, a.b.c, x-1_y, gw-2006.n1, Jan_02.15}; 1-3 own files whose name carries a recent or future local time while the file itself is old (and vice versa); workers run in six time zones (TZ) and in six synthetic zones whose UTC offset jumps by one hour 5, 30 or 200 hours ago (forwards or backwards); maxAge over 1..720 h with emphasis on 1-3 and 590-720; optionally a sibling '<name>.wf' appender cleaning the same directory. The appender is started (current file exists) and the scan runs through the guarded synchronous entry; a second worker kind lets a real 1 s rotation trigger the asynchronous scan and polls the directory. " +
+			"modification times set to T0-age with ages 0, maxAge∓11 min, ∓1 h, far expired, uniformly young; names in {app.log, svc, a.b.c, x-1_y, gw-2006.n1, Jan_02.15, app[1].log, a*b, q?.log}; log directories named c<i>, c<i>[z], c<i>?, c<i>*, c<i>\\z, each of the odd ones next to another program's directory (c<i>z, c<i>q, c<i>-more) holding old files named like our rotated ones, which must survive; in every fourth case the directory is moved away during one scan and restored before the judged scan; 1-3 own files whose name carries a recent or future local time while the file itself is old (and vice versa); workers run in six time zones (TZ) and in six synthetic zones whose UTC offset jumps by one hour 5, 30 or 200 hours ago (forwards or backwards); maxAge over 1..720 h with emphasis on 1-3 and 590-720; optionally a sibling '<name>.wf' appender cleaning the same directory. The appender is started (current file exists) and the scan runs through the guarded synchronous entry; a second worker kind lets a real 1 s rotation trigger the asynchronous scan and polls the directory. " +
 			"Oracle: survivors = everything except regular files matching ^<name>\\.\\d{14}$ older than maxAge hours (no file lies within 10 min of the cut-off). In every third case the same appender scans a second time after half of the surviving own files were touched (modification time = now) and maxAge was lowered to 1 h. Non-trivial/distinct = distinct (trigger, name, maxAge band, sibling, something deleted) classes that matched.",
 		Assumptions: []string{"files within 10 minutes of the cut-off are never generated; a case taking longer than that is inconclusive", "modification times are set with os.Chtimes"},
 		Run: func(d *D) {
